@@ -146,3 +146,12 @@ func StdMenu(sizes ...int) func(max int) []int {
 		return out
 	}
 }
+
+// MustUDPAddr parses "ip:port" into a *net.UDPAddr.
+func MustUDPAddr(s string) *net.UDPAddr {
+	a, err := net.ResolveUDPAddr("udp", s)
+	if err != nil {
+		panic(err)
+	}
+	return a
+}
